@@ -53,7 +53,7 @@ printf '{"leg":"probes","nameability_probe_compiles":%s,"extra_data_crate":"%s"}
 # ---- 3. the custom integrals
 if [ "$probe_ok" = true ]; then
     build "vcustom" build --offline --release -p vcustom
-    "$H/target/release/vcustom" C14 --tier "$TIER" --seed "$SEED" --verif-dir "$VERIF" --out-dir "$OUT"
+    guarded_run main "$H/target/release/vcustom" C14 --tier "$TIER" --seed "$SEED" --verif-dir "$VERIF" --out-dir "$OUT"
     rc=$?
     if [ $rc -eq 1 ]; then status=1; elif [ $rc -ne 0 ] && [ $status -eq 0 ]; then status=$rc; fi
 else
